@@ -278,17 +278,29 @@ def run_unit(unit, tier="quick", want_canary=True):
         res.reason = undecided
     # retry definite failures once with a larger resource limit and another seed: they must persist
     hard = [e for e in errors if not (e["fninfo"] is not None and e["fninfo"].known)]
-    if hard and res.status == "ok" and tier != "thorough":
-        cmd2, js2, diags2, fatal2, _ = run_verus(gen, ["--rlimit", retry_rl, "--smt-option", "smt.random_seed=7"])
-        errors2, und2 = classify(diags2, fns, gen_lines)
+    if hard and res.status == "ok":
+        # three more runs (larger resource limit, three other seeds), in parallel: a refutation has to persist in ALL of them —
+        # an obligation that is discharged under any seed is a proof, and one that fails only under some is a brittle proof, not
+        # a violation (found with harmless/H05: a behaviour-preserving edit tipped a large postcondition over under seed 0 only)
+        und2 = None
+        with concurrent.futures.ThreadPoolExecutor(max_workers=3) as ex:
+            futs = {sd: ex.submit(run_verus, gen, ["--rlimit", retry_rl, "--smt-option", f"smt.random_seed={sd}"]) for sd in (7, 13, 31)}
+            reruns = {}
+            for sd, fu in futs.items():
+                _c, _js, diags2, _fatal, _w = fu.result()
+                errors2, u2 = classify(diags2, fns, gen_lines)
+                reruns[sd] = errors2
+                und2 = und2 or u2
         keep = []
         for e in errors:
             if e["fninfo"] is not None and e["fninfo"].known:
                 keep.append(e)
-            elif any(e2["fn"] == e["fn"] and e2["line"] == e["line"] and e2["msg"] == e["msg"] for e2 in errors2):
+                continue
+            passed = [sd for sd, errors2 in reruns.items() if not any(e2["fn"] == e["fn"] and e2["line"] == e["line"] and e2["msg"] == e["msg"] for e2 in errors2)]
+            if not passed:
                 keep.append(e)
             else:
-                res.verus.setdefault("unstable", []).append(f"{e['fn']}: {e['msg']} (discharged with rlimit {retry_rl}, seed 7)")
+                res.verus.setdefault("unstable", []).append(f"{e['fn']}: {e['msg']} (discharged with rlimit {retry_rl}, seed(s) {passed})")
         errors = keep
         if und2 and not undecided:
             res.status = "undecided"
